@@ -65,6 +65,7 @@ pub fn check_isolation(h: &History) -> CaseResult {
     let mut compared_calls = 0;
     let mut cut_calls = 0;
     let mut idle_compared = 0;
+    let mut wasted_compared = 0;
     for s in &scenes {
         let mut proj = full.clone();
         proj.ops.retain(|o| scene_of(o) == Some(*s));
@@ -101,6 +102,18 @@ pub fn check_isolation(h: &History) -> CaseResult {
                 idle_compared += 1;
             }
         }
+        // ... and so are the finished tracks of the scene handed out by each wasted() call, as long
+        // as no clear_wasted came before (what that call discards depends on when the tracker-wide
+        // collection ran, which the statement leaves open)
+        let first_clear = full.ops.iter().position(|o| matches!(o, Op::ClearWasted)).unwrap_or(usize::MAX);
+        let scene_ids: std::collections::BTreeSet<u64> = inter.records.iter().filter(|(k, _)| scene_of(&full.ops[*k]) == Some(*s)).flat_map(|(_, r)| r.iter().map(|x| x.id)).collect();
+        for (k, set) in inter.wasted_sets.iter().filter(|(k, _)| *k < cut_op && *k < first_clear) {
+            if let Some((_, other)) = single.wasted_sets.iter().find(|(k2, _)| k2 == k) {
+                let mapped: std::collections::BTreeSet<u64> = set.iter().filter(|id| scene_ids.contains(id)).map(|id| ids.get(id).copied().unwrap_or(u64::MAX)).collect();
+                ensure!(mapped == *other, "isolation-wasted-report", "scene {}: finished tracks handed out by wasted() at op {} differ: {:?} of this scene interleaved (ids of the projection: {:?}) vs {:?} in the projection", s, k, set.iter().filter(|id| scene_ids.contains(id)).collect::<Vec<_>>(), mapped, other);
+                wasted_compared += 1;
+            }
+        }
         if let Some(g) = &grouped {
             let g: Vec<Vec<Rec>> = g.records.iter().filter(|(k, _)| scene_of(&full.ops[*k]) == Some(*s)).map(|(_, r)| r.clone()).collect();
             ensure!(g.len() == b.len(), "isolation-call-count", "scene {}: {} calls in the shared-batch run, {} in the projection", s, g.len(), b.len());
@@ -117,6 +130,7 @@ pub fn check_isolation(h: &History) -> CaseResult {
         .label(h.cfg.kind.name())
         .label_if(cut_calls > 0, "cut_at_fragile_call")
         .label_if(idle_compared > 0, "idle_reports_compared")
+        .label_if(wasted_compared > 0, "wasted_reports_compared")
         .label_if(compared_calls == 0, "nothing_compared")
         .label_if(grouped.is_some(), "shared_batches")
         .label_if(scenes.len() >= 2, "multi_scene"))
